@@ -119,6 +119,15 @@ def replay_case(case, tag, rng, tier):
         prelude(rng)
     pose = IDENT if rng.random() < 0.4 else random_pose(rng, pts=[[p[0], p[1], p[2], 1] for p in case.get("pts", [])])
     num = rng.choice(("float", "int"))
+    from fractions import Fraction as Fr
+    import geom
+    # the same instance at large magnitudes too (quantifier: "positions, poses and magnitudes"): a signed permutation scaled by a
+    # power of two with a dyadic translation, so that every coordinate is still exact in binary floating point and an exactly
+    # degenerate instance stays exactly degenerate
+    settings = [(pose, 1)]
+    if case["call"] != "op":
+        for mag in (1024, 131072):
+            settings.append((geom.Pose(s=1, k=Fr(mag), M=rng.choice(geom.SIGNED_PERMS), t=tuple(Fr(rng.randint(-8, 8), 4) for _ in range(3))), mag))
 
     def bad(clause, why, obs, sig):
         m, _ = common.mismatch(clause, sig, why, {"valid": case["valid"]}, obs, pose, [])
@@ -155,20 +164,23 @@ def replay_case(case, tag, rng, tier):
             out["sample"] = {"call": "%s(%s, %s)" % (op, ka, kb), "expected": "value" if case["valid"] else "raise"}
         return out
     out["cls"] = "%s|%s|%s" % (case["call"], "valid" if case["valid"] else "invalid", "tiny" if case["tiny"] else "exact")
-    val, exc = call(thunk(case, pose, num))
-    out["calls"] += 1
-    sig = {"op": case["call"], "valid": case["valid"], "tiny": case["tiny"], "npts": len(case["pts"])}
-    if case["valid"]:
-        if exc is not None:
-            # a valid control that fails is not a rejection defect (C15 is about invalid input); it is counted, and the
-            # property that owns the constructor (C14, C17, C09 ...) reports it
-            out["skipped"]["valid-control-raised:%s" % case["call"]] = 1
-        elif isinstance(val, BaseException):
-            bad("C15.returned_exception", "returned an exception instance", observe(val), sig)
-    else:
-        if exc is None:
-            bad("C15.invalid_accepted", "invalid arguments returned %s instead of raising" % observe(val)["k"], observe(val),
-                dict(sig, obs=observe(val)["k"]))
+    for pose, mag in settings:
+        val, exc = call(thunk(case, pose, num))
+        out["calls"] += 1
+        sig = {"op": case["call"], "valid": case["valid"], "tiny": case["tiny"], "npts": len(case["pts"])}
+        if mag > 1:
+            sig["large"] = True
+        if case["valid"]:
+            if exc is not None:
+                # a valid control that fails is not a rejection defect (C15 is about invalid input); it is counted, and the
+                # property that owns the constructor (C14, C17, C09 ...) reports it
+                out["skipped"]["valid-control-raised:%s" % case["call"]] = 1
+            elif isinstance(val, BaseException):
+                bad("C15.returned_exception", "returned an exception instance", observe(val), sig)
+        else:
+            if exc is None:
+                bad("C15.invalid_accepted", "invalid arguments returned %s instead of raising" % observe(val)["k"], observe(val),
+                    dict(sig, obs=observe(val)["k"]))
     if not out["mism"]:
         out["sample"] = {"call": case["call"], "pts": case["pts"], "vecs": case["vecs"], "n": case["n"], "tiny": case["tiny"],
                          "expected": "object" if case["valid"] else "exception"}
